@@ -8,11 +8,12 @@ import circuitgraph as cg
 RULE = ("every DAG on <=5 nodes (every subset of the upper-triangular edges; sources typed input/constant, the rest "
         "'and'), every digraph on <=3 nodes and sampled ones on 4 with cycles, random circuits with flop pins; for "
         "every node and sampled node lists all listed queries are compared with independent definitions; "
-        "non-trivial = graph has >=2 edges")
-BOUND = "DAGs <= 5 nodes exhaustive (quick: <=4 exhaustive, 5 sampled), digraphs <= 4 nodes, random <= 14 nodes; kcuts k in 1..3"
+        "non-trivial = graph has >=2 edges"
+        "; plus: DAGs on <=4 nodes whose sources include undriven gates; one gate of fan-in 1..12 over inputs and small gates with kcuts for every k <= fan-in+1")
+BOUND = "DAGs <= 5 nodes exhaustive (quick: <=4 exhaustive, 5 sampled), digraphs <= 4 nodes, random <= 14 nodes; kcuts k in 1..3 (wide-gate family: fan-in <= 12, k <= 13)"
 
 
-def _typed(n, edges, rng=None, bbsrc=False):
+def _typed(n, edges, rng=None, bbsrc=False, srcgate=False):
     names = [f"n{i}" for i in range(n)]
     indeg = {v: 0 for v in names}
     outdeg = {v: 0 for v in names}
@@ -23,6 +24,8 @@ def _typed(n, edges, rng=None, bbsrc=False):
     for i, v in enumerate(names):
         if indeg[v] == 0:
             t = "input" if i % 3 != 2 else "1"
+            if srcgate and i % 2 == 0:
+                t = "and"   # a gate nobody drives yet is a source of the graph like any other
         else:
             t = "and"
         nodes.append([v, t, outdeg[v] == 0 or i % 4 == 1])
@@ -39,6 +42,28 @@ def cases(tier, seed):
                 continue
             edges = [p for k, p in enumerate(pairs) if mask >> k & 1]
             yield {"c": _typed(n, edges), "k": 1 + mask % 3}
+    # sources that are undriven gates (circuits under construction): the queries are graph-theoretic
+    for n in range(1, 5):
+        names = [f"n{i}" for i in range(n)]
+        pairs = [(names[i], names[j]) for i in range(n) for j in range(i + 1, n)]
+        for mask in range(1 << len(pairs)):
+            edges = [p for k, p in enumerate(pairs) if mask >> k & 1]
+            yield {"c": _typed(n, edges, srcgate=True), "k": 1 + mask % 3}
+    # one wide gate (fan-in 1..12; each operand an input or a small gate) and every k up to fan-in + 1
+    for f in range(1, 13):
+        nodes, edges = [], []
+        for j in range(f):
+            if (j + f) % 3 == 0:
+                nodes += [[f"a{j}", "input", False], [f"b{j}", "input", False], [f"m{j:02d}", "or", False]]
+                edges += [[f"a{j}", f"m{j:02d}"], [f"b{j}", f"m{j:02d}"], [f"m{j:02d}", "zz"]]
+            else:
+                nodes.append([f"a{j}", "input", False])
+                edges.append([f"a{j}", "zz"])
+        nodes.append(["zz", "and", True])
+        for k in range(1, f + 2):
+            if tier == "quick" and f > 8 and k not in (f - 1, f, f + 1):
+                continue
+            yield {"c": {"name": "wide", "nodes": nodes, "edges": edges, "bbs": {}}, "k": k, "only_kcuts_of": "zz"}
     for n in (2, 3, 4):
         names = [f"n{i}" for i in range(n)]
         pairs = [(u, v) for u in names for v in names if u != v]
@@ -168,7 +193,7 @@ def run_case(case):
     chk("has_reconvergent_fanout", c.has_reconvergent_fanout(), bool(want_rc), "has_reconvergent_fanout()")
     if not cyc:
         sources = {n for n in nodes if not pred[n]}
-        for n in nodes[-3:]:
+        for n in ([case["only_kcuts_of"]] if case.get("only_kcuts_of") else nodes[-3:]):
             for cut in c.kcuts(n, k):
                 cut = set(cut)
                 if cut == {n}:
